@@ -5,7 +5,8 @@
 (*   multi    CandlesState.add_multiple_1m_candles                              *)
 (*   batch    CandlesState.batch_add_candle (also: warm-up injection of a real  *)
 (*            research.backtest, hdr.init = <<>>, post = what the strategy reads)*)
-(*   spacing  research.backtest on input whose leading candles are d ms apart   *)
+(*   spacing  research.backtest on candle sets (traded / data-route-only        *)
+(*            symbols) whose leading candles are d ms apart                     *)
 (* against the property only (list semantics: strictly increasing timestamps,   *)
 (* append on newer, replace on equal-to-stored, otherwise unchanged - an        *)
 (* exception on an unknown older timestamp is tolerated, a lost replacement is  *)
@@ -85,7 +86,10 @@ BatchJudge(e) ==
      ELSE IF e.post = exp THEN "ok"
      ELSE site \o ":series-differs:" \o where
 SpacingJudge(e) ==
-  IF e.d # 60000 /\ ~e.raised THEN "research.backtest:accepts-leading-candles-not-one-minute-apart"
+  \* every candle set passed (traded symbols and data-route-only symbols) must be checked; a correctly spaced
+  \* (multi-symbol) input must run
+  IF e.anybad /\ ~e.raised THEN "research.backtest:accepts-leading-candles-not-one-minute-apart:" \o e.layout \o ":" \o e.bad
+  ELSE IF e.clean /\ e.raised THEN "research.backtest:rejects-one-minute-candles:" \o e.layout \o "(" \o e.exc \o ")"
   ELSE "ok"
 
 Judge(e) == CASE e.k = "fill" -> FillJudge(e)
